@@ -75,6 +75,9 @@ func Minimise(h Hooks, c Case, class string, maxAttempts int) (Case, int) {
 		if (len(cand.Files) > 1 || cand.Multi) && h.Multi == nil {
 			return false
 		}
+		if hasParenExpr(cand.Input) {
+			return false // never construct inputs on which the pinned library does not return (DESIGN.md §3.6)
+		}
 		o := Execute(h, cand, nil)
 		v := Judge(cand, NewModelCache(cand.Input), o)
 		return v.Inconclusive == "" && v.Class == class
@@ -289,4 +292,24 @@ func planSize(c Case) int {
 		n += len(f.Steps)
 	}
 	return n
+}
+
+// hasParenExpr reports whether the text contains an opening parenthesis that starts a parenthesised
+// scalar expression (i.e. one that does not follow an identifier or the keyword in).
+func hasParenExpr(in []byte) bool {
+	toks := parser.Scan(string(in))
+	for i, t := range toks {
+		if t.Kind != parser.TokenLParen {
+			continue
+		}
+		if i == 0 {
+			return true
+		}
+		switch toks[i-1].Kind {
+		case parser.TokenIdentifier, parser.TokenIn, parser.TokenQuotedIdentifier:
+		default:
+			return true
+		}
+	}
+	return false
 }
